@@ -269,6 +269,7 @@ class Corr:
 
     def add(self, op, impl, model, cls=None, branches=()):
         self.evaluations += 1
+        watchdog_kick(op)
         if cls is not None:
             self.classes.add(cls)
         for b in branches:
@@ -327,6 +328,44 @@ def jsonable(x):
     return x
 
 
+def _search_child(conn, prop, tier, seed, hints, budget):
+    import signal, traceback
+    signal.signal(signal.SIGALRM, _on_alarm)
+    signal.alarm(int(budget) + STALL_S)
+    try:
+        conn.send((prop.search(tier, seed, hints, budget), None))
+    except WatchdogTimeout:
+        tb = traceback.format_exc()
+        conn.send((None, 'the failing-input search did not finish within its budget + %d s; stack at the time:\n%s' % (STALL_S, tb[-3000:])))
+    except BaseException as ex:            # an oracle that crashes must not pass for "nothing found"
+        conn.send((None, 'the failing-input search raised %s: %s\n%s' % (type(ex).__name__, ex, traceback.format_exc()[-3000:])))
+    finally:
+        signal.alarm(0)
+        conn.close()
+
+
+def run_search(prop, tier, seed, hints, budget):
+    """prop.search in a forked child, so that a call of the code under test that never returns cannot hang the check:
+    -> (found | None, None | text describing the stall)"""
+    import multiprocessing as mp
+    ctx = mp.get_context('fork')
+    a, b = ctx.Pipe(duplex=False)
+    pr = ctx.Process(target=_search_child, args=(b, prop, tier, seed, hints, budget))
+    pr.start()
+    b.close()
+    res = (None, f'the failing-input search was killed after {int(budget) + 2 * STALL_S} s')
+    try:
+        if a.poll(int(budget) + 2 * STALL_S):
+            res = a.recv()
+    except (EOFError, OSError) as ex:
+        res = (None, f'the failing-input search died: {ex}')
+    pr.join(5)
+    if pr.is_alive():
+        pr.kill()
+        pr.join()
+    return res
+
+
 def check_main(pid, prop, tier, seed):
     """
     The decision procedure shared by all checks (DESIGN.md §6.1).
@@ -378,7 +417,9 @@ def check_main(pid, prop, tier, seed):
         if broken:
             hints = broken
             budget = 120 if tier == 'quick' else 900
-            found = prop.search(tier, seed, hints, budget)
+            found, stall = run_search(prop, tier, seed, hints, budget)
+            if stall:
+                broken.append({'kind': 'search-stall', 'name': 'failing-input search', 'detail': stall})
             if found is not None and any(k['property'] == pid and k['key'] == found.get('key') for k in known):
                 known_hits.append(found)
             else:
@@ -481,10 +522,71 @@ def merge_corr(name, parts):
     return c
 
 
+class WatchdogTimeout(BaseException):
+    """raised (from a SIGALRM handler) inside a correspondence shard or a failing-input search that made no progress for
+    STALL_S seconds: the code under test does not terminate (or is slower by orders of magnitude) on some generated input.
+    A BaseException on purpose: the per-case `except Exception` clauses of the harness must not swallow it."""
+
+
+STALL_S = int(os.environ.get('PTN_STALL_S', '150'))
+_watch = {'armed': False, 'last': None}
+
+
+def _on_alarm(signum, frame):
+    raise WatchdogTimeout(f'no progress for {STALL_S} s')
+
+
+def watchdog_arm():
+    import signal
+    signal.signal(signal.SIGALRM, _on_alarm)
+    signal.alarm(STALL_S)
+    _watch['armed'] = True
+
+
+def watchdog_kick(op=None):
+    """progress: called for every compared case (Corr.add) and every oracle iteration"""
+    if _watch['armed']:
+        import signal
+        signal.alarm(STALL_S)
+        _watch['last'] = op
+
+
+def watchdog_off():
+    import signal
+    signal.alarm(0)
+    _watch['armed'] = False
+
+
 def _shard_worker(args):
     fn, name, shard, nshards, tier, seed = args
     env_threads()
-    return fn(name, shard, nshards, tier, seed)
+    global STALL_S
+    if 'PTN_STALL_S' not in os.environ:
+        STALL_S = 150 if tier == 'quick' else 600
+    watchdog_arm()
+    try:
+        return fn(name, shard, nshards, tier, seed)
+    except WatchdogTimeout as ex:
+        # a hang of the implementation is a behavioural difference from the (total, fuel-bounded) model: it breaks the
+        # correspondence, and the failing-input search decides what it means for the property
+        c = Corr(name)
+        c.evaluations = 1
+        c.disagreements.append({'correspondence': name, 'op': {'watchdog': f'shard {shard}/{nshards}', 'after_case': jsonable(_watch['last'])},
+                                'impl': f'the call following the last compared case did not return: {ex}', 'model': 'returns (the model is total)',
+                                'diff': 'non-termination / stall of the code under test'})
+        return c
+    except Exception as ex:
+        # the generator / harness itself tripped over what the code under test returned (e.g. an inconsistent object that
+        # the unchanged code never produces): also a broken correspondence, never a crash of the check
+        import traceback
+        c = Corr(name)
+        c.evaluations = 1
+        c.disagreements.append({'correspondence': name, 'op': {'harness-exception': f'shard {shard}/{nshards}', 'after_case': jsonable(_watch['last'])},
+                                'impl': f'{type(ex).__name__}: {ex}\n' + traceback.format_exc()[-1500:], 'model': 'n/a',
+                                'diff': 'exception outside a compared call (state produced by the code under test is not what the generators can handle)'})
+        return c
+    finally:
+        watchdog_off()
 
 
 def parallel_shards(fn, name, tier, seed, nshards=None):
